@@ -14,3 +14,4 @@ import SJ.Props.C04
 #print axioms SJ.Props.C04.c04_typed_partial
 #print axioms SJ.Props.C04.c04_typed_fr
 #print axioms SJ.Props.C04.c04_typed_nofloat
+#print axioms SJ.Props.C04.c04_typed_f32_leaf
